@@ -7,21 +7,15 @@ import (
 
 var verifKeywords = []string{"repositories", "docker", "registry", "v2", "blobs", "sha256", "tags", "current", "link", "data"}
 
-// verifRoot: "/", or 1..maxComp components with or without a trailing slash.
-// The first component is 1..2 unknown bytes of [a-z0-9._-] (the regexp
-// metacharacter '.' included); deeper components are the concrete "d.2", "d3"
-// (a pattern with more than ~2 unknown characters makes regexp compilation
-// under the engine take minutes per path).
+// verifRoot: "/", or 1..maxComp components of 1..2 unknown bytes from
+// [a-z0-9._-] (the regexp metacharacter '.' included), with or without a
+// trailing slash.
 func verifRoot(maxComp int) string {
 	shape := verif.Choice("root_shape", 3)
 	if shape == 0 {
 		return "/"
 	}
-	root := verifRootNoSlash(1)
-	n := verif.Len("root_depth", 1, maxComp)
-	for i := 1; i < n; i++ {
-		root += []string{"/d.2", "/d3"}[(i-1)%2]
-	}
+	root := verifRootNoSlash(maxComp)
 	if shape == 2 {
 		root += "/"
 	}
